@@ -90,24 +90,63 @@ fn read_with_04(bytes: &[u8], model: &Model, probes: &[Vec<u8>]) -> Result<(), S
     }
 }
 
-/// The interval the offset tables must follow: the configured one, or — when the configuration
-/// leaves the default — whatever single interval the file itself uses consistently (the default is
-/// an implementation choice, not part of the format): it is inferred from the first block with two
-/// slots and then enforced on every block.
-fn interval_of(cfg: &FileCfg, bytes: &[u8]) -> Result<Option<usize>, String> {
-    if let Some(i) = cfg.interval {
-        return Ok(Some(i));
-    }
-    let (_, blocks) = vlib::fmt::walk_blocks(bytes)?;
-    for b in &blocks {
-        if b.table.len() >= 2 {
-            return match b.entry_offsets.iter().position(|o| *o as u64 == b.table[1]) {
-                Some(i) if i >= 1 => Ok(Some(i)),
-                _ => Err(format!("block at {}: second offset slot is not an entry start", b.offset)),
-            };
+/// "One slot per index interval" when no interval is configured: the default is an implementation
+/// choice, not part of the format, and nothing says data and index blocks share it. Each class of
+/// blocks (data blocks; index blocks) must then follow ONE interval of its own, inferred from the
+/// first block of the class that has two slots.
+fn regular_tables(layout: &vlib::fmt::Layout) -> Result<(), String> {
+    let leaf = layout.trailer.levels as usize + 1;
+    for (name, ids) in [
+        ("data", layout.by_depth.get(leaf).cloned().unwrap_or_default()),
+        ("index", layout.by_depth.iter().enumerate().filter(|(d, _)| *d < leaf).flat_map(|(_, v)| v.iter().copied()).collect::<Vec<usize>>()),
+    ] {
+        let mut iv: Option<usize> = None;
+        for &bi in &ids {
+            let b = &layout.blocks[bi];
+            if b.table.len() >= 2 {
+                match b.entry_offsets.iter().position(|o| *o as u64 == b.table[1]) {
+                    Some(i) if i >= 1 => {
+                        iv = Some(i);
+                        break;
+                    }
+                    _ => return Err(format!("block at {}: second offset slot is not an entry start", b.offset)),
+                }
+            }
+        }
+        for &bi in &ids {
+            let b = &layout.blocks[bi];
+            let n = b.entries.len();
+            match iv {
+                Some(iv) => {
+                    let expect = std::cmp::max(1, n.div_ceil(iv));
+                    if b.table.len() != expect {
+                        return Err(format!("{name} block at {}: {} slots for {n} entries while the {name} blocks of this file use interval {iv}", b.offset, b.table.len()));
+                    }
+                    for (j, s) in b.table.iter().enumerate() {
+                        if n > 0 && b.entry_offsets[j * iv] as u64 != *s {
+                            return Err(format!("{name} block at {}: slot {j} is {s}, entry {} starts at {}", b.offset, j * iv, b.entry_offsets[j * iv]));
+                        }
+                    }
+                }
+                // no block of the class has a second slot: every block is within one interval
+                None => {
+                    if b.table.len() != 1 {
+                        return Err(format!("{name} block at {}: {} slots", b.offset, b.table.len()));
+                    }
+                }
+            }
         }
     }
-    Ok(None)
+    Ok(())
+}
+
+/// decodes with the configured interval enforced, or with the per-class inferred one
+fn decode_conforming(cfg: &FileCfg, bytes: &[u8]) -> Result<vlib::fmt::Layout, String> {
+    let layout = decode_file(bytes, cfg.interval)?;
+    if cfg.interval.is_none() {
+        regular_tables(&layout)?;
+    }
+    Ok(layout)
 }
 
 /// All C09 obligations for one file. Err((kind, message)).
@@ -116,11 +155,12 @@ pub fn conformance(spec: &FileSpec) -> Result<(usize, bool), (String, String)> {
     let cfg = &spec.cfg;
     let bytes = write_file(cfg, &entries).map_err(|e| ("write".to_string(), e))?;
     // oracle 1: independent decoder
-    let iv = interval_of(cfg, &bytes).map_err(|e| ("format".to_string(), e))?;
-    let layout = decode_file(&bytes, iv).map_err(|e| ("format".to_string(), e))?;
+    let layout = decode_conforming(cfg, &bytes).map_err(|e| ("format".to_string(), e))?;
     let t = &layout.trailer;
-    if t.version != 2 || t.codec != cfg.codec || t.levels != cfg.index_levels {
-        return Err(("trailer".into(), format!("trailer {t:?} does not match the configuration {cfg:?}")));
+    // the version and the codec that decompresses the blocks; the levels field is whatever depth
+    // the decoder just walked successfully (the statement does not tie it to the builder setting)
+    if t.version != 2 || t.codec != cfg.codec {
+        return Err(("trailer".into(), format!("trailer {t:?} does not name version 2 and the configured codec {}", cfg.codec)));
     }
     if layout.entries != entries {
         return Err(("format".into(), "independent decoder recovers different entries than inserted".into()));
@@ -130,8 +170,11 @@ pub fn conformance(spec: &FileSpec) -> Result<(usize, bool), (String, String)> {
     if layout.blocks.len() > cfg.index_levels as usize + 3 && entries.len() <= 64 && bytes.len() % 16 == 0 {
         let short = crate::common::write_file_short(cfg, &entries).map_err(|e| ("write".to_string(), format!("through a short-writing sink: {e}")))?;
         if short != bytes {
-            decode_file(&short, iv).map_err(|e| ("format".to_string(), format!("file received by a sink accepting short and interrupted writes: {e}")))?;
-            return Err(("format".into(), "a sink accepting short and interrupted writes received different bytes".into()));
+            // different bytes are C11's business; here they must still be a conforming file
+            let l2 = decode_conforming(cfg, &short).map_err(|e| ("format".to_string(), format!("file received by a sink accepting short and interrupted writes: {e}")))?;
+            if l2.entries != entries {
+                return Err(("format".into(), "the file received by a sink accepting short and interrupted writes decodes to different entries".into()));
+            }
         }
     }
     let model = Model::new(entries);
@@ -144,7 +187,7 @@ pub fn conformance(spec: &FileSpec) -> Result<(usize, bool), (String, String)> {
     if cfg.index_levels != 255 {
         let old = write_04(cfg, &model.entries).map_err(|e| ("0.4.7-writer".to_string(), format!("the frozen writer failed: {e}")))?;
         same_bytes = old == bytes;
-        let lo = decode_file(&old, interval_of(cfg, &old).map_err(|e| ("0.4.7-bytes-format".to_string(), e))?)
+        let lo = decode_conforming(cfg, &old)
             .map_err(|e| ("0.4.7-bytes-format".to_string(), format!("independent decoder on 0.4.7 bytes: {e}")))?;
         if lo.entries != model.entries {
             return Err(("0.4.7-bytes-format".into(), "independent decoder recovers different entries from 0.4.7 bytes".into()));
